@@ -401,6 +401,23 @@ def own_mutation(rng, side_obj, dflt):
     return "noop", (lambda: None)
 
 
+def _api_view(obj):
+    """what the public API shows of a side (independent of the object-graph walker)"""
+    ft = H.ft()
+    root = root_fiber(obj)
+    out = [H.snapshot(root) if root is not None else None]
+    try:
+        out.append(repr(obj))
+        if isinstance(obj, ft.Tensor):
+            out += [obj.getRankIds(), obj.getShape(), obj.getName(), obj.isMutable(), repr(obj.getDefault()),
+                    [r.getFormat() for r in obj.ranks]]
+        elif root is not None:
+            out += [root.getShape(), root.getActive(), repr(root.getDefault())]
+    except Exception as e:
+        out.append(H.err_class(e))
+    return json.dumps(out, default=str)
+
+
 def follow_ups(rng, W, sides, roots_all, current, n_steps, dflt, n, hints=(None, None), plain=(False, False)):
     """apply n_steps random mutations, each to ONE side; returns the step records and side conditions"""
     steps = []
@@ -411,6 +428,7 @@ def follow_ups(rng, W, sides, roots_all, current, n_steps, dflt, n, hints=(None,
         obj, roots = sides[s]
         other_roots = sides[1 - s][1]
         other_before = digest(W.walk(other_roots))
+        api_before = _api_view(sides[1 - s][0])
         root = root_fiber(obj)
         mut = None
         k = None
@@ -437,7 +455,7 @@ def follow_ups(rng, W, sides, roots_all, current, n_steps, dflt, n, hints=(None,
         new = W.walk(roots_all)
         writes = [[a, rec[0], rec[1]] for a, rec in new.items() if current.get(a) != rec]
         current.update(new)
-        if digest(W.walk(other_roots)) != other_before:
+        if digest(W.walk(other_roots)) != other_before or _api_view(sides[1 - s][0]) != api_before:
             invisible = False
         steps.append({"side": s, "k": k, "writes": writes, "mut": mut})
     return steps, invisible
@@ -966,7 +984,7 @@ def gen(seed, tier):
             yield _mk("read", op, {}, {}, d, 0, t, "tensor" if op.startswith("T.") else "root", h, **kw)
     # ---- seeded random -----------------------------------------------------------------
     rng = random.Random(seed)
-    nrand = 500 if quick else 24000
+    nrand = 1000 if quick else 24000
     for i in range(nrand):
         d = rng.choice([1, 2, 2, 3])
         n = rng.choice([3, 4, 6])
